@@ -113,7 +113,9 @@ class PipelineUnit(WeaverUnit):
             ax, ay = average(np.array(xs), np.array(ys), n)
             if ax.tolist() != rx:
                 F.append(Failure(aspect="average-x", what="block averaging does not return the original abscissae exactly", signature={"aspect": "average-x"}))
-            elif np.max(np.abs(ay[:m - 1] - np.array(ry[:m - 1]))) > 1e-8 * (1 + np.max(np.abs(ry))):
+            elif np.max(np.abs(ay[:m - 1] - np.array(ry[:m - 1]))) > 1e-8 * (1 + np.max(np.abs(ry))) + 1e-13 * np.max(np.abs(ys)):
+                # (second term: the recreated samples themselves may be huge next to their averages — a sampling function evaluated at
+                #  epoch-second abscissae — and their mean is then only known to about eps * max|ys|)
                 F.append(Failure(aspect="average-y", what="block averages %s differ from the original averages %s" % (ay[:m - 1].tolist()[:8], ry[:m - 1][:8]), signature={"aspect": "average-y"}))
         return F
 
